@@ -137,6 +137,7 @@ func cmdRun(args []string) int {
 	kf := fs.String("kf", "/verif/known_findings.jsonl", "known findings file")
 	workers := fs.Int("workers", 16, "workers")
 	pathLimit := fs.Int("pathlimit", 0, "override path limit")
+	obTimeout := fs.Int("obtimeout", 0, "seconds per obligation (0 = tier default)")
 	fs.Parse(args)
 
 	loadKnownFindings(*kf)
@@ -144,6 +145,9 @@ func cmdRun(args []string) int {
 	cfg.Workers = *workers
 	if *pathLimit > 0 {
 		cfg.PathLimit = *pathLimit
+	}
+	if *obTimeout > 0 {
+		cfg.ObTimeoutS = *obTimeout
 	}
 	t0 := time.Now()
 	eng, err := loadProgram(*repo, *harness, cfg)
